@@ -1,0 +1,31 @@
+// This Source Code Form is subject to the terms of the Mozilla Public
+// License, v. 2.0. If a copy of the MPL was not distributed with this
+// file, You can obtain one at http://mozilla.org/MPL/2.0/.
+
+//go:build verif
+
+package qruntime
+
+import (
+	"github.com/cosi-project/runtime/pkg/controller/runtime/internal/qruntime/internal/containers"
+	"github.com/cosi-project/runtime/pkg/controller/runtime/internal/qruntime/internal/queue"
+)
+
+// Verification-only re-exports of the nested internal packages (build tag verif).
+
+// VerifQueue re-exports queue.Queue.
+type VerifQueue[K comparable, V any] = queue.Queue[K, V]
+
+// VerifQueueItem re-exports queue.Item.
+type VerifQueueItem[K comparable, V any] = queue.Item[K, V]
+
+// VerifPriorityQueue re-exports containers.PriorityQueue.
+type VerifPriorityQueue[K comparable, V any] = containers.PriorityQueue[K, V]
+
+// VerifSliceSet re-exports containers.SliceSet.
+type VerifSliceSet[T comparable] = containers.SliceSet[T]
+
+// VerifNewQueue re-exports queue.NewQueue.
+func VerifNewQueue[K comparable, V any]() *queue.Queue[K, V] {
+	return queue.NewQueue[K, V]()
+}
